@@ -129,7 +129,8 @@ package http1
 //@   ghostset after acquireConn: disp = ite(result2 == nil, 1, 0)
 //@   assert before closeConn: disp == 1
 //@   ghostset after closeConn: disp = 2
-//@   assert before releaseConn: disp == 1 && err == nil && !shouldCloseConn && !resetConnection
+//@   assert before releaseConn: disp == 1 && err == nil && !shouldCloseConn
+//@   assert before releaseConn#1: !resetConnection
 //@   ghostset after releaseConn: disp = 3
 //@   assert before newUpgradeConn: disp == 1
 //@   ghostset after newUpgradeConn: disp = 4
